@@ -261,7 +261,7 @@ inductive VPc
   | needW (op : String)                          -- read section missed, next: write lock
   | wheld (op : String) (res : String)           -- write lock held, effect done
   | incChild (child : Nat)                       -- `inc` through a returned handle
-  | collecting (keys : List (String × Nat)) (todo : List Nat) (acc : List (String × Nat))
+  | collecting (keys : List (String × Nat)) (reads : List (String × UInt64 × List Nat))   -- value reads so far: location, value, the children it can be
 deriving Repr
 
 /-- one committed operation: the thread, the operation, what it returned -/
@@ -289,6 +289,21 @@ def sortKeys (l : List String) : List String := l.foldl (fun acc a => insertBy (
   where insertBy (le : String → String → Bool) (a : String) : List String → List String
     | [] => [a]
     | b :: r => if le b a then b :: insertBy le a r else a :: b :: r
+
+/-- attribute the value reads of one collect to the children that were in the map: every read gets one of the
+    children it could be at the time it was made (`cands`), each child exactly one read, and a location that has
+    meanwhile been identified (by an update through a handle) goes to its child -/
+def tryCands {α} (k : Nat → Option α) : List Nat → Option α
+  | [] => none
+  | c :: cs => match k c with
+    | some r => some r
+    | none => tryCands k cs
+
+def assignReads (binding : List (String × Nat)) : List (String × UInt64 × List Nat) → List Nat → Option (List (Nat × UInt64))
+  | [], _ => some []
+  | (loc, v, cands) :: rest, avail =>
+    let ok (c : Nat) : Bool := avail.contains c && (match binding.find? (·.1 == loc) with | some (_, c') => c' == c | none => true)
+    tryCands (fun c => (assignReads binding rest (avail.erase c)).map ((c, v) :: ·)) (cands.filter ok)
 
 def setHandle (s : VSt) (tid c : Nat) : VSt := { s with handle := (tid, c) :: s.handle.filter (·.1 != tid) }
 
@@ -318,7 +333,7 @@ def vStep (s : VSt) (e : Ev) : Except String VSt :=
           guard s.lockW.isNone "read lock granted while a writer holds the lock" <|
           let (s1, r) := vEff s e.tid .keys
           let ks := match r with | .keys l => l | _ => []
-          .ok (setTh { s1 with lockR := e.tid :: s1.lockR } { th with pc := some (.collecting ks (ks.map (·.2)) []) })
+          .ok (setTh { s1 with lockR := e.tid :: s1.lockR } { th with pc := some (.collecting ks []) })
         else if n == "rm" || n == "reset" then
           guard (e.k == "X" && e.loc == "lk") s!"{n}: expected write lock" <|
           guard (s.lockW.isNone && s.lockR.isEmpty) "write lock granted while the lock is held" <|
@@ -354,26 +369,27 @@ def vStep (s : VSt) (e : Ev) : Except String VSt :=
           guard (!s.binding.any (·.2 == c)) s!"child {c} already lives at another location than {e.loc}" <|
           let s1 := (vEff s e.tid (.inc c)).1
           .ok (setTh { s1 with binding := (e.loc, c) :: s1.binding } { th with pc := none, retv := some "" })
-      | .collecting ks todo acc =>
+      | .collecting ks reads =>
+        let todo := ks.map (·.2)
         if e.k == "L" then
-          -- value read of one of the children that were in the map when the lock was taken (any order)
-          let cand := match s.binding.find? (·.1 == e.loc) with
-            | some (_, c) => if todo.contains c then some c else none
-            | none => -- a child never incremented yet: bind to any unbound child of `todo`
-              todo.find? fun c => !(s.binding.any (·.2 == c))
-          match cand with
-          | none => .error s!"collect reads {e.loc}, not a child that is in the map"
-          | some c =>
-            let (s1, r) := vEff s e.tid (.read c)
-            guard (r == .val e.res) "collect: wrong child value" <|
-            let s2 := if s1.binding.any (·.1 == e.loc) then s1 else { s1 with binding := (e.loc, c) :: s1.binding }
-            let k := ((ks.find? (·.2 == c)).map (·.1)).getD "?"
-            .ok (setTh s2 { th with pc := some (.collecting ks (todo.erase c) ((k, e.res.toNat) :: acc)) })
+          -- a value read of one of the children that were in the map when the lock was taken. A location that has been
+          -- identified (by an update through a handle) is that child's cell; a location not seen before is the cell of
+          -- one of the not-yet-located children holding the value read - which one is settled at the unlock, when the
+          -- reads are attributed to the children (`assignReads`); candidates hold the same value, so the result of the
+          -- collect does not depend on the choice.
+          let cands := match s.binding.find? (·.1 == e.loc) with
+            | some (_, c) => if todo.contains c && s.spec.vals.getD c 0 == e.res then [c] else []
+            | none => todo.filter fun c => !(s.binding.any (·.2 == c)) && s.spec.vals.getD c 0 == e.res
+          guard (!cands.isEmpty) s!"collect reads {e.loc}, not (the current value of) a child that is in the map" <|
+          .ok (setTh s { th with pc := some (.collecting ks ((e.loc, e.res, cands) :: reads)) })
         else
           guard (e.k == "r" && e.loc == "lk") "collect: expected child load or read unlock" <|
-          guard todo.isEmpty "collect released the lock before reading every child" <|
-          let strs := sortKeys (acc.map fun kv => kv.1 ++ "=" ++ toString kv.2)
-          .ok (setTh { s with lockR := s.lockR.erase e.tid } { th with pc := none, retv := some ("+".intercalate strs) })
+          guard (reads.length == todo.length) "collect released the lock before reading every child (or read one twice)" <|
+          match assignReads s.binding reads.reverse todo with
+          | none => .error "collect: the values read cannot be attributed to the children that were in the map"
+          | some asg =>
+            let strs := sortKeys (asg.map fun cv => (((ks.find? (·.2 == cv.1)).map (·.1)).getD "?") ++ "=" ++ toString cv.2.toNat)
+            .ok (setTh { s with lockR := s.lockR.erase e.tid } { th with pc := none, retv := some ("+".intercalate strs) })
 
 def vItem (s : VSt) : Item → Except String VSt
   | .ev e => vStep s e
